@@ -181,10 +181,19 @@ func canonicalElems(c lockgen.Config) ([]lockgen.SigElem, bool) {
 func propSwapMelt(t *rapid.T) {
 	w := world.New(t, world.Config{CaseSeed: rapid.Uint64().Draw(t, "case_seed"), SeedIdx: rapid.IntRange(0, 5).Draw(t, "mint_seed"), FeeMode: lnmodel.FeeZero})
 	defer w.Close()
-	condMode := rapid.SampledFrom([]string{"independent", "independent", "same", "same", "same_mixed_flags", "same_other_lock_key"}).Draw(t, "conditions")
+	condMode := rapid.SampledFrom([]string{"independent", "independent", "same", "same", "same_mixed_flags", "same_other_lock_key", "canonical_sig_all"}).Draw(t, "conditions")
+	// canonical_sig_all: a homogeneous SIG_ALL request exactly as the library's helpers would build it - the case for
+	// which the statement promises acceptance (by swap; refusal by melt, which must leave the inputs swappable)
+	canonicalCase := condMode == "canonical_sig_all"
+	if canonicalCase {
+		condMode = "same"
+	}
 	sameCond := condMode == "same"
 	nLocked := rapid.IntRange(1, 3).Draw(t, "n_locked")
 	nPlain := rapid.IntRange(0, 3).Draw(t, "n_plain")
+	if canonicalCase {
+		nPlain = 0
+	}
 	mixed := condMode == "same_mixed_flags" || condMode == "same_other_lock_key"
 	if mixed {
 		// aim at the SIG_ALL uniformity rule itself: several locked inputs and mostly nothing else that could get the
@@ -200,8 +209,17 @@ func propSwapMelt(t *rapid.T) {
 		c := lockgen.GenConfig(t, "P2PK")
 		c.Malformed = ""
 		if i == 0 {
-			if condMode == "same_other_lock_key" {
+			if condMode == "same_other_lock_key" || canonicalCase {
 				c.Sigflag = "SIG_ALL"
+			}
+			if canonicalCase {
+				for tries := 0; tries < 8; tries++ {
+					if _, ok := canonicalElems(c); ok && c.Locktime != "past" && len(c.Secret()) <= 500 {
+						break
+					}
+					c = lockgen.GenConfig(t, "P2PK")
+					c.Malformed, c.Sigflag = "", "SIG_ALL"
+				}
 			}
 			base = c
 		} else if condMode != "independent" {
@@ -220,7 +238,7 @@ func propSwapMelt(t *rapid.T) {
 			}
 		}
 		li := lockedInput{cfg: c, secret: c.Secret()}
-		if ce, ok := canonicalElems(c); ok && (rapid.IntRange(0, 3).Draw(t, "canonical_witness") > 0 || mixed) {
+		if ce, ok := canonicalElems(c); ok && (rapid.IntRange(0, 3).Draw(t, "canonical_witness") > 0 || mixed || canonicalCase) {
 			li.elems, li.canon = ce, true
 		} else {
 			li.elems, _ = lockgen.GenWitnessElems(t, c, candidateKeys, "sig")
@@ -274,7 +292,12 @@ func propSwapMelt(t *rapid.T) {
 			rec.Class("e2e_secret_over_512_bytes")
 		}
 	}
-	target := rapid.SampledFrom([]string{"swap", "swap", "swap", "melt"}).Draw(t, "target")
+	// melt_then_swap: a melt that the mint refuses (SIG_ALL, bad witness) must leave the inputs as they were - the swap
+	// that follows is judged exactly like a first attempt
+	target := rapid.SampledFrom([]string{"swap", "swap", "swap", "melt", "melt_then_swap"}).Draw(t, "target")
+	if canonicalCase && target == "melt" {
+		target = "melt_then_swap"
+	}
 	rec.Eval()
 	sigAllAny := false
 	for _, li := range locked {
@@ -296,7 +319,7 @@ func propSwapMelt(t *rapid.T) {
 	}
 	rec.Class(fmt.Sprintf("e2e_target=%s_sig_all=%v", target, sigAllAny))
 	rec.NonTrivial(cls + fmt.Sprint(perm, locked[0].elems, locked[0].cfg.NSigs, locked[0].cfg.Locktime))
-	if target == "melt" {
+	if target == "melt" || target == "melt_then_swap" {
 		inv := w.Net.ExternalInvoice(total * 1000)
 		mq, err := w.RequestMeltQuote(inv.Request, 0)
 		if err != nil {
@@ -313,7 +336,10 @@ func propSwapMelt(t *rapid.T) {
 		if !accepted && allSuff && !sigAllAny {
 			violate(t, "e2e|melt_sufficient_witness_rejected", "err %v; secrets %v witnesses %v", err, secrets, witnesses(inputs))
 		}
-		return
+		if target == "melt" || err == nil {
+			return
+		}
+		rec.Class("e2e_swap_after_refused_melt")
 	}
 	// swap: outputs and their witnesses
 	amounts := world.Split(total)
@@ -327,8 +353,11 @@ func propSwapMelt(t *rapid.T) {
 	newOuts := w.MakeOutputs(amounts, w.ActiveID)
 	msgs := world.Msgs(newOuts)
 	outMode := rapid.SampledFrom([]string{"unsigned", "helper_lock_key", "helper_lock_key", "wrong_key", "one_unsigned", "threshold"}).Draw(t, "output_witness")
-	if mixed && rapid.IntRange(0, 3).Draw(t, "mixed_sign_outputs") > 0 {
+	if (mixed && rapid.IntRange(0, 3).Draw(t, "mixed_sign_outputs") > 0) || canonicalCase {
 		outMode = "threshold"
+	}
+	if canonicalCase {
+		rec.Class("e2e_canonical_sig_all_target=" + target)
 	}
 	var bs, ows []string
 	switch outMode {
